@@ -553,7 +553,7 @@ class FIXSchema:
                     # Group also refers to other component, postpone it
                     has_circular_refs = True
                     continue
-                component.add(g, g.required)
+                component.add(g, g.field_required)
 
         if has_circular_refs:
             return None
@@ -709,9 +709,9 @@ class FIXSchema:
             schema_fields.add(fname)
 
             if req:
-                if isinstance(f, SchemaField):
-                    if f.tag not in msg:
-                        raise FIXMessageError(f"Missing required field={repr(f)}")
+                # a required field or a required repeating group
+                if f.tag not in msg:
+                    raise FIXMessageError(f"Missing required field={repr(f)}")
 
         if "8" in msg:
             self._validate_header(msg)
